@@ -10,11 +10,12 @@ _FAM = ("whole seconds free (< 2^31), sub-second part from the family (the 62-bi
 PROP = {
     "title": "a silent participant is dropped after its lease, a live one never",
     "design_ref": "DESIGN.md section 3, C12",
-    "inject": dict(ENV_INJECT, **{"src/discovery/discovery_db.rs": ["lease"]}),
+    "inject": dict(ENV_INJECT, **{"src/discovery/discovery_db.rs": ["lease", "c11_db"]}),
     "shim_files": RTPS_SHIM_FILES + ["src/structure/sequence_number.rs", "src/rtps/message.rs"],
     # <= 2 live entries per DiscoveryDB map (1-2 participants, 1 reader + 1 writer each)
     "cap": {"quick": 2, "thorough": 2},
     "harnesses": [
+        H("c11_db_attic_roundtrip_one", "discovery::discovery_db::verif_harness_c11_db", "(shared with C11) reappearance: a participant with one reader and one writer times out (remove_participant(p, false)): both endpoints leave the per-topic query results and become exactly the attic's content; the next announcement is reported as new and restores exactly them, leaving the attic empty", "concrete scenario, one participant", timeout=900),
         # ---- scalar layer: the real Duration arithmetic participant_cleanup relies on
         H("c12_duration_order_is_tick_order", _l,
           "Ord of Duration == order of tick counts; lease + TOLERANCE(0) == lease (also INFINITE); default == 60 s; nothing exceeds INFINITE",
